@@ -4,6 +4,9 @@ import (
 	"go/constant"
 	"go/token"
 	"go/types"
+	"sort"
+	"strconv"
+	"strings"
 
 	"golang.org/x/tools/go/ssa"
 )
@@ -361,4 +364,77 @@ func (ev *byteEval) call(fn *ssa.Function, args map[ssa.Value]int64, depth int) 
 		}
 	}
 	return 0, false
+}
+
+// EvalAt evaluates v at instruction `at` of fn on every path from the entry that the known values allow: leaf fixes
+// the inputs, branch conditions that evaluate are followed, the others are explored both ways. It returns the set of
+// values v can have there and whether v was unknown on some path. Paths are cut at `at`; a state (edge + bound values)
+// is visited once, so loops terminate.
+func EvalAt(fn *ssa.Function, leaf func(ssa.Value) (int64, bool), at ssa.Instruction, v ssa.Value) (map[int64]bool, bool) {
+	vals := map[int64]bool{}
+	unknown := false
+	if len(fn.Blocks) == 0 {
+		return vals, true
+	}
+	ev := &byteEval{isByte: func(ssa.Value) bool { return false }, leaf: leaf}
+	type state struct {
+		blk, prev *ssa.BasicBlock
+		fp        string
+	}
+	seen := map[state]bool{}
+	fingerprint := func(env map[ssa.Value]int64) string {
+		var parts []string
+		for k, x := range env {
+			parts = append(parts, k.Name()+"="+strconv.FormatInt(x, 10))
+		}
+		sort.Strings(parts)
+		return strings.Join(parts, ",")
+	}
+	steps := 0
+	var walk func(blk, prev *ssa.BasicBlock, env map[ssa.Value]int64)
+	walk = func(blk, prev *ssa.BasicBlock, env map[ssa.Value]int64) {
+		steps++
+		if steps > 20000 {
+			unknown = true
+			return
+		}
+		ev.args = env
+		ev.enter(blk, prev)
+		st := state{blk, prev, fingerprint(env)}
+		if seen[st] {
+			return
+		}
+		seen[st] = true
+		for _, in := range blk.Instrs {
+			if in == at {
+				ev.args = env
+				if x, ok := ev.value(v, phiCtx{}, 0); ok {
+					vals[x] = true
+				} else {
+					unknown = true
+				}
+				return
+			}
+		}
+		if len(blk.Instrs) == 0 {
+			return
+		}
+		switch t := blk.Instrs[len(blk.Instrs)-1].(type) {
+		case *ssa.If:
+			ev.args = env
+			c, known := ev.value(t.Cond, phiCtx{}, 0)
+			if !known {
+				walk(blk.Succs[0], blk, copyEnv(env))
+				walk(blk.Succs[1], blk, copyEnv(env))
+			} else if c != 0 {
+				walk(blk.Succs[0], blk, env)
+			} else {
+				walk(blk.Succs[1], blk, env)
+			}
+		case *ssa.Jump:
+			walk(blk.Succs[0], blk, env)
+		}
+	}
+	walk(fn.Blocks[0], nil, map[ssa.Value]int64{})
+	return vals, unknown
 }
